@@ -2858,6 +2858,22 @@ fn mir_match_check(script: &str, rt: &Runtime<NoCtx>, drv: &mut Driver, rep: &mu
             for _ in 0..get("discr=") {
                 rep.hist("mir_match_checker", "discriminant-reads");
             }
+            // the second verified checker (`argumentsAreConsumed`, soundness
+            // `call_arguments_are_consumed_mir`): aggregate / owned values handed to a call
+            for _ in 0..get("args=") {
+                rep.hist("mir_match_checker", "call-arguments-verified");
+            }
+        } else if ans.starts_with("badarg;") {
+            let var = it.vars.get(get("var=") as usize).cloned().unwrap_or_default();
+            crate::viol(
+                rep,
+                &format!(
+                    "the MIR of a well-typed script hands variable `{var}` (a record / enum / owned value) to a call and reads, drops, moves, passes or returns `{var}` afterwards on some path before assigning it anew: the callee's parameter is not a copy of its own (item {}, {ans})",
+                    it.name
+                ),
+                "call-argument-used-after-call",
+                input(json!({"item": it.name, "checker": ans, "variable": var, "mir": it.text})),
+            );
         } else if ans.starts_with("bad;") {
             let var = it.vars.get(get("var=") as usize).cloned().unwrap_or_default();
             crate::viol(
